@@ -50,6 +50,7 @@ class Report:
         self.start = time.time()
         self.violations = []       # (signature, what, replay_object)
         self.known_hits = {}       # signature -> what
+        self.sig_counts = {}
         self.known = load_known(prop)
         self.coverage = {'states': 0, 'transitions': 0, 'traces_validated_against_impl': 0,
                          'samples': [], 'evaluations': 0, 'distinct_nontrivial': 0, 'rule': ''}
@@ -73,7 +74,9 @@ class Report:
         if signature in self.known:
             self.known_hits.setdefault(signature, self.known[signature].get('what', what))
             return
-        if len(self.violations) < 50:
+        self.sig_counts[signature] = self.sig_counts.get(signature, 0) + 1
+        # keep the first few of every signature so that one frequent failure does not hide the others
+        if self.sig_counts[signature] <= 3 and len(self.violations) < 60:
             self.violations.append((signature, what, replay))
 
     # ---- output -------------------------------------------------------------------
@@ -82,9 +85,13 @@ class Report:
         for sig, what in sorted(self.known_hits.items()):
             print('KNOWN-FINDING: property=%s %s [%s]' % (self.prop, what, sig))
         lines = []
-        if self.violations:
-            os.makedirs(REPLAY_DIR, exist_ok=True)
-        for idx, (sig, what, replay) in enumerate(self.violations[:10]):
+        os.makedirs(REPLAY_DIR, exist_ok=True)
+        for name in os.listdir(REPLAY_DIR):          # replays of an earlier run of this check and tier are stale
+            if name.startswith('%s_%s_' % (self.prop, self.tier)):
+                os.unlink(os.path.join(REPLAY_DIR, name))
+        for sig, count in sorted(self.sig_counts.items()):
+            print('  %5d x %s' % (count, sig))
+        for idx, (sig, what, replay) in enumerate(self.violations[:12]):
             path = os.path.join(REPLAY_DIR, '%s_%s_%d.json' % (self.prop, self.tier, idx))
             with open(path, 'w') as out:
                 json.dump({'property': self.prop, 'signature': sig, 'what': what, 'replay': replay},
